@@ -240,11 +240,19 @@ impl RealtimeCompressor {
 
     /// Decompress data
     pub async fn decompress(&self, data: &[u8]) -> Result<Vec<u8>> {
-        let compressor = self.compressor.read()
-            .map_err(|e| crate::error::ZiporaError::system_error(
-                format!("RealtimeCompressor: compressor RwLock poisoned: {}", e)
-            ))?;
-        compressor.decompress(data)
+        // first byte: 0 = stored raw (deadline fallback / tiny input), 1 = output of the mode's compressor
+        match data.split_first() {
+            None => Ok(Vec::new()),
+            Some((&Self::TAG_RAW, body)) => Ok(body.to_vec()),
+            Some((&Self::TAG_COMPRESSED, body)) => {
+                let compressor = self.compressor.read()
+                    .map_err(|e| crate::error::ZiporaError::system_error(
+                        format!("RealtimeCompressor: compressor RwLock poisoned: {}", e)
+                    ))?;
+                compressor.decompress(body)
+            }
+            Some(_) => Err(ZiporaError::invalid_data("unknown realtime block tag")),
+        }
     }
 
     /// Batch compress multiple items
@@ -305,14 +313,24 @@ impl RealtimeCompressor {
     async fn compress_internal(&self, data: &[u8]) -> Result<Vec<u8>> {
         // For very small data, consider skipping compression
         if data.len() < 64 && self.config.mode == CompressionMode::UltraLowLatency {
-            return Ok(data.to_vec());
+            return Ok(Self::tagged(Self::TAG_RAW, data));
         }
 
         let compressor = self.compressor.read()
             .map_err(|e| crate::error::ZiporaError::system_error(
                 format!("RealtimeCompressor: compressor RwLock poisoned: {}", e)
             ))?;
-        compressor.compress(data)
+        Ok(Self::tagged(Self::TAG_COMPRESSED, &compressor.compress(data)?))
+    }
+
+    const TAG_RAW: u8 = 0;
+    const TAG_COMPRESSED: u8 = 1;
+
+    fn tagged(tag: u8, body: &[u8]) -> Vec<u8> {
+        let mut out = Vec::with_capacity(body.len() + 1);
+        out.push(tag);
+        out.extend_from_slice(body);
+        out
     }
 
     /// Handle timeout by falling back to no compression
@@ -327,8 +345,8 @@ impl RealtimeCompressor {
         }
 
         if self.config.fallback_on_timeout {
-            // Use fallback compressor (no-op)
-            self.fallback_compressor.compress(data)
+            // Use fallback compressor (no-op), marked as raw so that decompress can tell
+            Ok(Self::tagged(Self::TAG_RAW, &self.fallback_compressor.compress(data)?))
         } else {
             Err(ZiporaError::configuration("compression deadline exceeded"))
         }
